@@ -82,6 +82,7 @@ func newScenario(seed int64, maxDur time.Duration, st *stats) (*scenario, error)
 	case 4, 5:
 		// heartbeat answers that arrive after the library's own 1 s time-out while the term goes on
 		prof.SlowUpdate = 250
+		prof.SlowAck = true
 		longSlow = true
 	case 0: // clean
 	case 1:
